@@ -350,6 +350,19 @@ def chunk_precedence(chunk, acc):
             acc.case(("collide", small, label), outcome=str(getattr(bc, "version", bc)))
             if isinstance(bc, str) or str(bc.version) != exp:
                 acc.fail("C18/version/precedence/stamp-collides-with-index", {"kind": "precedence", "arch": "x86", "export": small, "max_index": small}, exp, bc if isinstance(bc, str) else str(bc.version))
+    # one object, the public stamp attribute assigned after construction (as from_file does) and read in between
+    for maxidx in (58, 78):
+        bc = beacon.BeaconConfig(RC.block([(1, 1, b"\x00\x00"), (maxidx, 0, b"")]))
+        hist = [None, stamps[0], stamps[-1], stamps[0] + 1, None, stamps[len(stamps) // 2]]
+        for i, st in enumerate(hist):
+            bc.pe_export_stamp = st
+            exp = et.get(st, "Unknown") if st is not None else mt.get(maxidx, "Unknown")
+            got = call(lambda: str(bc.version))
+            acc.transitions += 1
+            acc.case(("object-history", maxidx, i), outcome=got)
+            if got != exp:
+                acc.fail("C18/version/precedence/stale-after-stamp-change", {"kind": "precedence", "arch": "-", "export": st, "max_index": maxidx, "history": hist[: i + 1]}, exp, got)
+                break
     # a bare block (no image): version comes from the highest index
     for maxidx in (20, 58, 59, 75, 78, 79):
         bc = beacon.BeaconConfig(RC.block([(1, 1, b"\x00\x00"), (maxidx, 0, b"")]))
